@@ -606,6 +606,26 @@ func VH07e_burst() {
 		id2 = be32(pipes[0].Sent[1].H)
 		verif.Assert(id2 != id1, lab+"/survey-ids-distinct")
 	}
+	// the second survey is the context's current one whatever happened to the first at the same moment (its expiry
+	// timer, its cancellation): a response to it is delivered, Recv does not report "no survey"
+	probed := false
+	if id2 != 0 && verif.Choice("probe-survey-2", 2) == 1 {
+		idle := true
+		for _, r := range recs {
+			idle = idle && r.g.Done()
+		}
+		if idle {
+			probed = true
+			resp(pipes[1], id2, 112)
+			verif.Quiesce()
+			m2, rerr2 := s.recvMsg()
+			verif.Assert(rerr2 == nil, lab+"/response-to-the-current-survey-not-delivered")
+			if rerr2 == nil {
+				verif.Assert(len(m2.Body) == 1 && m2.Body[0] == 112, lab+"/delivered-message-is-not-the-response-to-the-current-survey")
+			}
+			verif.Reach("burst-probe-2")
+		}
+	}
 	n0 := len(pipes[0].Sent)
 	verif.Assert(s.send([]byte{3}) == nil, lab+"/survey-3")
 	verif.Quiesce()
@@ -619,7 +639,7 @@ func VH07e_burst() {
 		verif.Assert(r.g.Done(), lab+"/recv-of-a-replaced-survey-still-blocked")
 	}
 	resp(pipes[0], id1, 111)
-	if id2 != 0 {
+	if id2 != 0 && !probed {
 		resp(pipes[1], id2, 112)
 	}
 	verif.Quiesce()
